@@ -50,6 +50,7 @@ pub fn run_scheduled_full(
     inner: bool,
     mut on_turn: impl FnMut(&str),
 ) -> (Vec<String>, Vec<Vec<String>>) {
+    let _busy = crate::world::Busy::new();
     let n = bodies.len();
     let sh = Arc::new(Shared {
         m: Mutex::new(St { turn: None, at_yield: vec![false; n], done: vec![false; n] }),
